@@ -151,7 +151,7 @@ func c07(c *core.Check) {
 	}
 
 	// ---- R1 bounds
-	r1 := c.Rule("R1", "every fixed-position read of a variable-length value in scope (index c, slice bound c, len-c, v-c) cannot be out of range: length by construction, unreachable for every shorter length, or a parameter precondition established at each call site; reads whose safety is a relational invariant are tabled per function with their count and reason", 495)
+	r1 := c.Rule("R1", "every fixed-position read of a variable-length value in scope (index c, slice bound c, len-c, v-c) cannot be out of range: length by construction, unreachable for every shorter length, or a parameter precondition established at each call site; reads whose safety is a relational invariant are tabled per function with their count and reason", 496)
 	eng := core.NewBoundsEngine(p)
 	results, unc, calls := eng.Analyse(scope, func(fn *ssa.Function) bool { return false })
 	all := append(results, calls...)
